@@ -204,7 +204,7 @@ fn decode(t: &mut Tape) -> Case {
     let mut ops = Vec::new();
     while ops.len() < n {
         let m = t.below(MAX_LIVE);
-        match t.weighted(&[31, 30, 7, 7, 10, 4, 3, 2, 2, 4]) {
+        match t.weighted(&[30, 30, 7, 7, 10, 6, 3, 2, 2, 4]) {
             0 => {
                 let val = gen_val(t, expr);
                 let k = val_bytes(&val) as u64;
@@ -1081,12 +1081,35 @@ fn main() -> std::process::ExitCode {
         "widths that are not a positive multiple of 8 are outside the property's domain; the documented rejection (Err, nothing stored) is required of them".into(),
         "the backing is built with set_memory and modelled last-writer-wins (C16)".into(),
     ];
+    // measured at bring-up (quick, seed 1, 150 000 cases), floors frozen at roughly half of it
     spec.floors = vec![
-        ("load-over-page-crossing-store", 0.10),
-        ("load-over-cut-value", 0.10),
-        ("load-three-way-overlap", 0.05),
-        ("load-after-clone-diverged", 0.10),
-        ("width>=128", 0.03),
+        ("load-over-page-crossing-store", 0.10), // measured 0.233
+        ("load-over-cut-value", 0.25),           // 0.528
+        ("load-three-way-overlap", 0.15),        // 0.300
+        ("load-after-clone-diverged", 0.25),     // 0.556
+        ("width>=128", 0.40),                    // 0.904
+        ("width-256", 0.35),                     // 0.751
+        ("store-crosses-page", 0.25),            // 0.558
+        ("store-cuts-two-values", 0.15),         // 0.323
+        ("store-nested-in-a-value", 0.25),       // 0.576
+        ("load-stores-and-backing", 0.09),       // 0.194
+        ("load-later-byte-absent", 0.25),        // 0.588
+        ("clone-replaces-a-memory", 0.09),       // 0.198
+        ("eq-unmodified-clone-nonempty", 0.30),  // 0.705
+        ("eq-false-differing", 0.15),            // 0.339
+        ("eq-true-two-nonempty-memories", 0.02), // 0.041 (doubles once == works without a backing)
+        ("set_permissions-above-page-0", 0.30),  // 0.634
+        ("set_permissions-from-page-0", 0.14),   // 0.288
+        ("permissions-from-backing", 0.10),      // 0.213
+        ("permissions-of-unset-page-with-store", 0.25), // 0.540
+        ("invalid-width", 0.30),                 // 0.619
+        ("expr", 0.40),
+        ("const", 0.40),
+        ("big-endian", 0.40),
+        ("little-endian", 0.40),
+        ("with-backing", 0.40),
+        ("without-backing", 0.40),
+        ("nontrivial", 0.30),                    // 0.571
     ];
     spec.crash_sig = |c: &Case| format!("C08|{}|{}", if c.expr { "expr" } else { "const" }, if c.backing.is_some() { "with-backing" } else { "without-backing" });
     engine::main(spec)
